@@ -101,7 +101,7 @@ ASSUMPTIONS = ['the `success` flag of a received event is forced to True by Prot
                'server -> client calls always carry explicit channels (an empty channel tuple is replaced by the receiver, which the statement does not cover)']
 PROBES = ['call:c2s', 'call:s2c', 'call:concurrent', 'call:big', 'completed', 'fault:short_read', 'cut:in-delimiter', 'cut:tiny', 'cut:uniform',
           'cut:in-multibyte', 'packet:split', 'fw:send-blocked', 'fw:recv-blocked', 'topo:B1', 'topo:B2', 'topo:BC', 'hostile:valid', 'hostile:mutated',
-          'hostile:bytes', 'hostile:meta', 'hostile:value', 'hostile:oversized', 'fault:peer_abort', 'hostile:probe-call', 'behav:raise', 'behav:gen',
+          'hostile:bytes', 'hostile:meta', 'hostile:value', 'hostile:oversized', 'fault:peer_abort', 'hostile:probe-call', 'behav:raise', 'behav:gen', 'behav:ret-fire',
           'mode:fire', 'mode:call', 'mode:fwd', 'junk-dispatch', 'note:send', 'note:send_to', 'note:send_all', 'no-result-event-in-flight-with-call',
           'root:*', 'root:app', 'root:svc', 'non-star-root-with-raising-handler', 'behav:gen-raise',
           'callee:plain', 'callee:meta', 'callee:error', 'callee:wrong-id', 'callee:duplicate', 'callee:pieces', 'hostile-result-meta', 'call:to-raw-peer']
@@ -125,7 +125,12 @@ SHARED = [(Protocol, '_Protocol__events'), (Server, '_Server__protocols'), (Node
 ADDR = ('10.0.0.1', 9000)
 NAMES = ['alpha', 'beta', 'gamma', 'delta']
 ATOMS = [0, 1, -1, 2 ** 40, 1.5, True, False, None, '', 'a', 'é', '€uro', '\U0001f600', 'x~y', 'q"uo\\te', 'line\nbreak', '~~', [], {}]
-KW_KEYS = ['k', 'n', 'data', 'id', 'name', 'meta', 'ключ']
+KW_KEYS = ['k', 'n', 'data', 'id', 'name', 'meta', 'ключ', '_name', 'cls']
+
+
+def mk_event(name, args, kwargs):
+    """Like Event.create(name, *args, **kwargs), for ANY keyword names (a sender is free to use `_name` or `cls` as a keyword)."""
+    return type(Event)(name, (Event,), {})(*args, **kwargs)
 POLLERS = [Select, Poll, EPoll]
 # attributes of an Event the dispatcher reads; a peer must not be able to set them
 PROTECTED_META = ['stopped', 'cancelled', 'complete', 'alert_done', 'waitingHandlers', 'failed', 'value', 'handler', 'args', 'kwargs', 'name',
@@ -350,14 +355,22 @@ class Sim:
 
             @handler(*NAMES)
             def on_call(self, event, *args, **kwargs):
-                return sim.on_call(p, event, args, kwargs)
+                return sim.on_call(p, event, args, kwargs, self)
+
+            @handler('relay')
+            def relay(self, cid):
+                return sim.calls[cid].result
 
         class App(Component):
             channel = 'app'
 
             @handler(*NAMES)
             def on_call(self, event, *args, **kwargs):
-                return sim.on_call(p, event, args, kwargs)
+                return sim.on_call(p, event, args, kwargs, self)
+
+            @handler('relay')
+            def relay(self, cid):
+                return sim.calls[cid].result
 
             @handler('go')
             def go(self, cid):
@@ -428,7 +441,7 @@ class Sim:
 
             @handler('job')
             def on_job(self, event, *args, **kwargs):
-                return sim.on_call(p, event, args, kwargs)
+                return sim.on_call(p, event, args, kwargs, None)
 
         p.app = App().register(p.m)
         Svc().register(p.m)
@@ -601,9 +614,10 @@ class Sim:
                 if key == 'value':
                     c.feats.add('valuekey:call')
                 c.kwargs[key] = self.gen_value(allow_big, c.feats, 'call')
-        c.behav = 'ret' if probe else ['ret', 'ret', 'none', 'gen', 'raise', 'gen-raise'][ch.weighted([5, 3, 2, 2] + ([2, 1] if self.allow_raise else [0, 0]), 'behav')]
+        c.behav = 'ret' if probe else ['ret', 'ret', 'none', 'gen', 'raise', 'gen-raise', 'ret-fire'][
+            ch.weighted([5, 3, 2, 2] + ([2, 1] if self.allow_raise else [0, 0]) + [2], 'behav')]
         c.result = None
-        if c.behav in ('ret', 'gen'):
+        if c.behav in ('ret', 'gen', 'ret-fire'):
             c.result = 'pong' if probe else self.gen_value(allow_big, c.feats, 'result')
             if c.result is None:
                 c.behav = 'none'
@@ -617,7 +631,7 @@ class Sim:
         c.rsize = len(J(c.result)) + 60
         if self.align and max(c.size, c.rsize) > 3600:
             return None
-        c.event = Event.create(c.name, *c.args, **c.kwargs)
+        c.event = mk_event(c.name, c.args, c.kwargs)
         c.event.failure, c.event.notify, c.event.success = c.failure, c.notify, c.success
         if not probe and c.mode != 'fwd' and ch.chance(1, 6, 'custom-meta'):
             c.event.trace_meta = 'm%d' % c.cid            # an application attribute: travels as meta
@@ -646,7 +660,7 @@ class Sim:
         self.by_tok[c.tok] = c
         ctx.stat('call:' + c.dirn)
         ctx.stat('mode:' + c.mode)
-        if c.behav in RAISES or c.behav == 'gen':
+        if c.behav in RAISES or c.behav in ('gen', 'ret-fire'):
             ctx.stat('behav:' + c.behav)
         if c.concurrent:
             ctx.stat('call:concurrent')
@@ -727,7 +741,7 @@ class Sim:
         n.result = ['note-result', n.tok]        # never equal to the result of an awaited call
         n.failure, n.notify, n.success = ch.chance(1, 4, 'failure-flag'), ch.chance(1, 5, 'notify-flag'), ch.chance(1, 4, 'success-flag')
         n.chans = ('app',)
-        n.event = Event.create(n.name, *n.args, **n.kwargs)
+        n.event = mk_event(n.name, n.args, n.kwargs)
         n.event.failure, n.event.notify, n.event.success, n.event.channels = n.failure, n.notify, n.success, n.chans
         n.size = len(J(n.args)) + len(J(n.kwargs)) + 190
         n.rsize = 100
@@ -829,7 +843,7 @@ class Sim:
                     return 'cause-effects' if k in CAUSE_META else k
         return None
 
-    def on_call(self, p, event, args, kwargs):
+    def on_call(self, p, event, args, kwargs, comp=None):
         ctx = self.ctx
         tok = args[0] if args and isinstance(args[0], str) else None
         c = self.by_tok.get(tok)
@@ -879,6 +893,9 @@ class Sim:
                 yield None
                 yield c.result
             return g()
+        if c.behav == 'ret-fire' and comp is not None:
+            # the usual way to delegate: the handler returns the (future) Value of another event, whose handler produces the result
+            return comp.fire(Event.create('relay', c.cid), comp.channel)
         return c.result
 
     def completed(self, c, r):
@@ -1183,8 +1200,15 @@ class Sim:
         if clause != 'never-ran' and 'delim:result' in feats and any(o is None and done for _, _, o, done in packets_of(back)):
             return K_DELIM, 'its result contains the packet delimiter ~~~, which cuts the result packet in two'
         answered = wire_id is not None and any(is_value(o) and J(o.get('id')) == J(wire_id) for _, _, o, _ in packets_of(back))
+        if clause == 'never-arrived' and c.behav == 'ret-fire' and len(c.runs) == 1 and not answered:
+            return 'C19/result/handler-returned-value-of-fire', (
+                'the handler returned the Value of another event (return self.fire(...)): no result packet is ever sent for a nested Value')
         if clause == 'never-arrived' and c.behav in RAISES and len(c.runs) == 1 and not answered:
             return K_RAISE, 'the handler raised: no result packet is ever sent for a failed event'
+        if clause == 'never-ran' and any(k in ('_name', 'cls') for k in (c.kwargs or {})):
+            return 'C19/exactly-once/keyword-named-like-create-parameter', (
+                'the call carries the keyword %r, which collides with a parameter of Event.create() when the receiver rebuilds the event' % (
+                    [k for k in c.kwargs if k in ('_name', 'cls')][0],))
         # (a cut is harmless once reassembly works, the "value" heuristic is not: it goes first)
         if clause == 'never-ran' and 'valuekey:call' in feats:
             return K_VALUEKEY, 'the call carries a dict key "value", so the packet is taken for a result packet'
